@@ -97,6 +97,19 @@ fn chunk_features(units: &[U], c: &Chunk, spec: &OptSpec) -> String {
             }
         }
     }
+    // 1c. the letter of the built-in help/version switch used for an argument of the user's own
+    if multi_letter {
+        let re = builtin_letters_reused(spec, false);
+        if !re.is_empty() {
+            for u in &units[c.lo..c.hi] {
+                if let UKind::Flag { names, .. } | UKind::Arg { names, .. } = &u.kind {
+                    if names.shorts.iter().any(|s| re.contains(s)) {
+                        return "cluster-letter-of-builtin-switch-declared-as-argument".to_string();
+                    }
+                }
+            }
+        }
+    }
     let mut f: Vec<String> = Vec::new();
     if c.cluster {
         f.push("cluster".into());
@@ -148,7 +161,7 @@ fn same(a: &Outcome, b: &Outcome) -> bool {
 
 /// Sibling commands commonly reuse a letter: make the first short flag of one command and the first
 /// short argument of another one share their letter (names stay unique along every path)
-fn share_a_letter_between_commands(spec: &mut OptSpec, rng: &mut crate::rng::Rng) -> bool {
+pub fn share_a_letter_between_commands(spec: &mut OptSpec, rng: &mut crate::rng::Rng) -> bool {
     fn cmds_mut<'a>(s: &'a mut Spec, out: &mut Vec<&'a mut CmdSpec>) {
         match s {
             Spec::Cmd(c) => out.push(c),
@@ -210,6 +223,58 @@ fn share_a_letter_between_commands(spec: &mut OptSpec, rng: &mut crate::rng::Rng
     }
 }
 
+/// `-h HOST`, `-V LEVEL`: a valued argument of the user's own that uses the letter of the built-in
+/// help (or version) switch; the user's item is asked first, so `-h value` is a sentence
+fn reuse_a_builtin_letter(spec: &mut OptSpec, rng: &mut crate::rng::Rng, flag: bool) -> bool {
+    fn arg_mut<'a>(s: &'a mut Spec, flag: bool) -> Option<&'a mut Item> {
+        match s {
+            Spec::Item(i) => {
+                let kind = if flag { i.is_flag() } else { i.is_arg() };
+                if kind && !i.names.shorts.is_empty() && i.names.shorts[0].is_ascii() {
+                    Some(i)
+                } else {
+                    None
+                }
+            }
+            Spec::Wrap { w: W::Hide, .. } => None,
+            Spec::Wrap { inner, .. } => arg_mut(inner, flag),
+            Spec::Seq(xs) => {
+                for x in xs {
+                    if let Some(i) = arg_mut(x, flag) {
+                        return Some(i);
+                    }
+                }
+                None
+            }
+            _ => None,
+        }
+    }
+    if spec.help_names.is_some() || spec.version_names.is_some() {
+        return false;
+    }
+    // `ls -h`: a flag of the user's own shadows the help switch
+    let letter = if flag || rng.chance(1, 2) { 'h' } else { 'V' };
+    match arg_mut(&mut spec.root, flag) {
+        Some(i) => {
+            i.names.shorts[0] = letter;
+            true
+        }
+        None => false,
+    }
+}
+
+/// letters of the built-in switches that the definition declares as a valued argument
+fn builtin_letters_reused(spec: &OptSpec, flags_too: bool) -> Vec<char> {
+    let mut items = Vec::new();
+    spec.root.all_items(&mut items);
+    items
+        .iter()
+        .filter(|i| i.is_arg() || (flags_too && i.is_flag()))
+        .flat_map(|i| i.names.shorts.iter().copied())
+        .filter(|c| *c == 'h' || *c == 'V')
+        .collect()
+}
+
 /// short letters declared as a flag at one place and as an argument at another
 fn ambiguous_letters(spec: &OptSpec) -> Vec<char> {
     let mut items = Vec::new();
@@ -232,6 +297,11 @@ pub fn run_case(case: &mut Case) {
     let mut spec = gen_options(&mut rng, opts());
     if rng.chance(1, 4) && share_a_letter_between_commands(&mut spec, &mut rng) {
         case.rep.count("definitions-with-a-letter-shared-between-commands");
+    }
+    if rng.chance(1, 12) && reuse_a_builtin_letter(&mut spec, &mut rng, false) {
+        case.rep.count("definitions-with-an-argument-named-like-a-builtin-switch");
+    } else if rng.chance(1, 8) && reuse_a_builtin_letter(&mut spec, &mut rng, true) {
+        case.rep.count("definitions-with-a-flag-named-like-the-help-switch");
     }
     let b = Bench::new(case, spec);
     let n_der = if case.thorough { 30 } else { 12 };
@@ -301,6 +371,75 @@ pub fn run_case(case: &mut Case) {
         let canon = render_chunks(&units, &mut rng, SpellStyle::Canonical);
         let cline = assemble(&units, &canon);
         let (o_canon, _) = b.run(case, &cline.argv, "canonical");
+        if !o_canon.is_value() && !builtin_letters_reused(&b.spec, true).is_empty() {
+            // on a line that fails, a left-over `-h` / `-V` of the user's own argument is the
+            // built-in switch and answers with help: only sentences are compared for this shape
+            case.rep.count("skipped:failing-line-with-reused-builtin-letter");
+            continue;
+        }
+        // the built-in switches take part in clusters like any declared flag: `-v -V` and `-vV`
+        // mean the same
+        if builtin_letters_reused(&b.spec, false).is_empty() {
+            let user_flags = builtin_letters_reused(&b.spec, true);
+            let hidden = hidden_items(&b.spec);
+            let amb = ambiguous_letters(&b.spec);
+            let mut builtin: Vec<u8> = Vec::new();
+            if b.spec.help_names.is_none() && !user_flags.contains(&'h') {
+                builtin.push(b'h');
+            }
+            if b.spec.version.is_some() && b.spec.version_names.is_none() && !user_flags.contains(&'V')
+            {
+                builtin.push(b'V');
+            }
+            for (ix, o) in cline.origin.iter().enumerate() {
+                if builtin.is_empty() || o.role != Role::Flag || o.depth != 0 || o.after_dd {
+                    continue;
+                }
+                let (names, item) = match &units[o.unit].kind {
+                    UKind::Flag { names, item } => (names, *item),
+                    _ => continue,
+                };
+                if hidden.contains(&item) {
+                    continue;
+                }
+                let c = match names
+                    .shorts
+                    .iter()
+                    .find(|c| c.is_ascii_alphanumeric() && !amb.contains(c))
+                {
+                    Some(c) => *c as u8,
+                    None => continue,
+                };
+                let sw = *rng.pick(&builtin);
+                let mut split = cline.argv.clone();
+                split[ix] = vec![b'-', c];
+                split.insert(ix + 1, vec![b'-', sw]);
+                let mut fused = cline.argv.clone();
+                fused[ix] = vec![b'-', c, sw];
+                let (o_split, _) = b.run(case, &split, "builtin-switch-next-to-flag");
+                if !matches!(o_split, Outcome::Stdout { .. }) {
+                    continue;
+                }
+                let (o_fused, _) = b.run(case, &fused, "builtin-switch-in-cluster");
+                if o_split != o_fused
+                    && !matches!(o_fused, Outcome::Panic(_) | Outcome::FuelExhausted)
+                {
+                    case.rep.violation(
+                        "respell:builtin-switch-in-cluster",
+                        "respelling",
+                        case.index,
+                        b.detail(
+                            &fused,
+                            "builtin-switch-in-cluster",
+                            &format!("the outcome of {}", show_argv(&split).render()),
+                            &o_fused,
+                        )
+                        .set("split_outcome", o_split.show()),
+                    );
+                }
+                break;
+            }
+        }
         // an `adjacent` argument takes its value from the same item only: the detached spelling of
         // an accepted line is not accepted
         if !invalid && o_canon.is_value() {
